@@ -1,4 +1,5 @@
-"""C03 finding (doc-text-before-note-dropped): the admonition pre-processor discards everything
+"""C03 finding (doc-text-before-note-dropped; repaired in /repo, kept as a regression demo): the admonition
+pre-processor discarded everything
 that precedes `@note` (or @warning/@todo/@bug/@history) on the same line, because the start line is
 rebuilt from the groups `indent`, `type` and `posttxt` of ADMONITION_RE.search only.
  (a) `alpha beta @note gamma`          -> the words `alpha beta` are not rendered;
